@@ -68,6 +68,12 @@ class Other(Base):
         self.flag = flag
 
 
+class Wrap(Base):
+    def __init__(self, inner: Optional[Base] = None, width: int = 1):
+        super().__init__(width)
+        self.inner = inner
+
+
 class Data:
     def __init__(self, size: int = 4, tags: List[str] = []):
         self.size, self.tags, self.num_classes = size, tags, size * 2
@@ -158,6 +164,7 @@ def build_D():
     p.add_argument("--pts", type=List[Point], default=[])
     p.add_argument("--zoo", type=Dict[str, Base], default={})
     p.add_argument("--lit", type=Literal["a", "b"], default="a")
+    p.add_argument("--opt_pt", type=Optional[Point])
     return p
 
 
@@ -251,6 +258,8 @@ def make_ops():
     args(B, "opt_help", ["--opt.help", f"{M}.Opt"])
     args(B, "extra_help", ["--extra.help", f"{M}.Sub"])
     args(B, "help_bad_class!", ["--extra.help", f"{M}.Data"])
+    args(B, "nested_help", ["--extra.help", f"{M}.Wrap", "--extra.inner.help", f"{M}.Sub"])
+    args(B, "wrap_help", ["--extra.help", f"{M}.Wrap"])
     args(B, "pc", ["--data.size=8", "--print_config"])
     args(B, "pc_flags", ["--print_config=comments,skip_null"])
     args(B, "pc_skip_default", ["--print_config=skip_default", "--head.scale=3"])
@@ -321,6 +330,8 @@ def make_ops():
     # ---------------- D: inner parser (ActionParser), list of dataclasses, dict of subclasses
     args(D, "ok", ["--inner.x=3", "--pts+={\"x\": 2}", "--lit=b"])
     args(D, "zoo", ["--zoo={\"k\": {\"class_path\": \"" + M + ".Other\", \"init_args\": {\"flag\": true}}}", "--inner.model.depth=5"])
+    args(D, "optpt_a", ["--opt_pt={\"x\": 5}", "--opt_pt.y=2.5"])
+    args(D, "optpt_b", ["--opt_pt={\"x\": 7, \"y\": 1.0}", "--opt_pt.x=8"])
     args(D, "inner_cfg", ["--inner", "<tmp>/d_inner.yaml", "--pts=[{\"y\": 1.5}, {}]"])
     args(D, "inner_cfg_bad!", ["--inner", "<tmp>/d_inner_bad.yaml"])
     args(D, "bad_value!", ["--inner.x=q"])
@@ -340,8 +351,8 @@ def make_ops():
     meth(D, "env", "parse_env", lambda: [{"DAPP_INNER__X": "7", "DAPP_LIT": "b"}], "{'DAPP_INNER__X': '7', 'DAPP_LIT': 'b'}")
     meth(D, "env_bad!", "parse_env", lambda: [{"DAPP_INNER__X": "q"}], "{'DAPP_INNER__X': 'q'}")
     meth(D, "defaults", "get_defaults", lambda: [], "")
-    d_cfg = {"inner": {"x": 2, "model": {"class_path": f"{M}.Other", "init_args": {"width": 3, "flag": False}}}, "pts": [{"x": 1, "y": 0.5}], "lit": "b"}
-    d_bad = {"inner": {"x": "q", "model": {"class_path": f"{M}.Sub"}}, "pts": [], "lit": "a"}
+    d_cfg = {"inner": {"x": 2, "model": {"class_path": f"{M}.Other", "init_args": {"width": 3, "flag": False}}}, "pts": [{"x": 1, "y": 0.5}], "lit": "b", "opt_pt": None}
+    d_bad = {"inner": {"x": "q", "model": {"class_path": f"{M}.Sub"}}, "pts": [], "lit": "a", "opt_pt": None}
 
     def d_ns(d):  # `zoo` is a Dict[str, Base] value: it stays a dict (of namespaces)
         n = ns(d)
@@ -366,9 +377,9 @@ SUSPICIOUS = {  # the first 5 of each list are used for the quick tier's longer 
 # the calls used as the final call of the longer exhaustive histories in the quick tier: one per method and outcome kind
 PROBES = {
     "A": ["fit", "test", "bad_value!", "model_help", "pc_fit", "cfg", "obj", "obj_bad!", "str", "env", "defaults", "dump", "validate", "validate_bad!"],
-    "B": ["ok", "extra", "bad_value!", "extra_help", "pc", "cfg", "obj", "obj_bad!", "str", "env", "defaults", "dump", "dump_skip_default", "validate"],
+    "B": ["ok", "extra", "bad_value!", "extra_help", "nested_help", "pc", "cfg", "obj", "obj_bad!", "str", "env", "defaults", "dump", "dump_skip_default", "validate"],
     "C": ["ok", "append", "bad_value!", "help", "pc", "cfg", "environ", "obj", "obj_bad!", "str", "env", "defaults", "dump", "validate"],
-    "D": ["ok", "zoo", "bad_value!", "inner_model_help!", "pc", "inner_cfg", "obj", "obj_bad!", "str", "env", "defaults", "dump", "validate", "validate_bad!"],
+    "D": ["ok", "zoo", "optpt_a", "bad_value!", "inner_model_help!", "pc", "inner_cfg", "obj", "obj_bad!", "str", "env", "defaults", "dump", "validate", "validate_bad!"],
 }
 SUSPICIOUS["B2"] = SUSPICIOUS["B"]
 # calls whose outcome the statement does not speak about ("parse, dump, defaults or validation call"): they are history steps, and a
